@@ -1,20 +1,10 @@
 (* C15 — the Roman branch of dirR (Model.go_roman) against the definition (Spec.std_roman) for ALL integers,
-   not only 1..3999: outside that range both have no numeral, except at 0 where the Go code writes the empty
-   string (finding C15-roman-zero). The range 1..3999 itself is WordProofs.go_roman_is_roman (kernel computation
+   not only 1..3999: outside that range both have no numeral (0 included since repo_fixes/C15-5; before, the Go code
+   wrote the empty string there, finding C15-roman-zero). The range 1..3999 itself is WordProofs.go_roman_is_roman (kernel computation
    over the whole finite domain). *)
 From C15 Require Import Model Spec IntProofs WordProofs EnglishProofs.
 Open Scope list_scope.
 
-Lemma digit_text_length_ge : forall k n, (10 ^ N.of_nat k <= n)%N -> k + 1 <= List.length (digit_text 10 n).
-Proof.
-  induction k as [|k IH]; intros n H.
-  - pose proof (digit_text_nonempty 10 n) as Hne. destruct (digit_text 10 n); [contradiction | cbn; lia].
-  - rewrite Nat2N.inj_succ, N.pow_succ_r' in H.
-    assert (1 <= 10 ^ N.of_nat k)%N by (apply N.lt_pred_le; apply N.neq_0_lt_0; apply N.pow_nonzero; lia).
-    rewrite digit_text_step by lia. rewrite app_length. cbn [List.length].
-    assert (10 ^ N.of_nat k <= n / 10)%N by (apply N.div_le_lower_bound; lia).
-    specialize (IH (n / 10)%N H1). lia.
-Qed.
 Lemma head_not_minus : forall n, ascii_eqb (hd zero (digit_text 10 n)) "-" = false.
 Proof.
   intros n. pose proof (digit_text_head 10 n ltac:(lia)) as H. unfold is_sign in H.
@@ -31,30 +21,26 @@ Proof.
     cbn [seq map] in Hin. repeat (destruct Hin as [<- | Hin]; [reflexivity |]). destruct Hin.
   - pose proof (digit_text_length_ge 4 n ltac:(exact E)) as HL. pose proof (head_not_minus n) as Hh.
     unfold go_roman. destruct (digit_text 10 n) as [|d0 r]; [reflexivity|]. cbn [hd] in Hh. rewrite Hh.
-    replace (Nat.ltb 4 (List.length (d0 :: r))) with true by (symmetry; apply Nat.ltb_lt; lia). reflexivity.
+    replace (Nat.ltb 4 (List.length (d0 :: r))) with true by (symmetry; apply Nat.ltb_lt; lia).
+    replace (Nat.eqb (List.length (d0 :: r)) 1) with false by (symmetry; apply Nat.eqb_neq; lia). reflexivity.
 Qed.
 Lemma go_roman_negative : forall T old z, (z < 0)%Z -> go_roman T old (dec_text z) = None.
 Proof.
   intros T old z Hz. unfold dec_text, int_text. replace (z <? 0)%Z with true by (symmetry; apply Z.ltb_lt; exact Hz).
   reflexivity.
 Qed.
-(* for every integer but 0 the Roman branch of dirR and the definition agree: the numeral on 1..3999, none elsewhere *)
-Theorem go_roman_all_integers : forall old z, z <> 0%Z -> go_roman src_tables old (dec_text z) = std_roman old z.
+(* for EVERY integer the Roman branch of dirR and the definition agree: the numeral on 1..3999, none elsewhere (0 is
+   "number too small" since repo_fixes/C15-5) *)
+Theorem go_roman_all_integers : forall old z, go_roman src_tables old (dec_text z) = std_roman old z.
 Proof.
-  intros old z Hz.
+  intros old z.
   destruct (Z_lt_le_dec z 0) as [Hneg | Hpos].
   - rewrite go_roman_negative by exact Hneg. rewrite roman_domain by lia. reflexivity.
   - destruct (Z_le_gt_dec z 3999) as [Hs | Hl].
-    + apply go_roman_is_roman. lia.
+    + destruct (Z.eq_dec z 0) as [-> | Hz]; [rewrite dec_text_0; reflexivity|]. apply go_roman_is_roman. lia.
     + rewrite roman_domain by lia. unfold dec_text, int_text.
       replace (z <? 0)%Z with false by (symmetry; apply Z.ltb_ge; lia). apply go_roman_large. lia.
 Qed.
-(* at 0 the Go code writes the empty numeral where the definition has none: whatever the tables *)
-Theorem go_roman_zero : forall T old, exists t, go_roman T old (dec_text 0) = Some t /\ std_roman old 0 = None.
-Proof. intros T old. rewrite dec_text_0. eexists. split; reflexivity. Qed.
-Theorem go_roman_exact : forall old z, go_roman src_tables old (dec_text z) = std_roman old z <-> z <> 0%Z.
-Proof.
-  intros old z. split.
-  - intros H E. subst z. destruct (go_roman_zero src_tables old) as [t [H1 H2]]. rewrite H1, H2 in H. discriminate.
-  - apply go_roman_all_integers.
-Qed.
+(* 0 has no numeral: whatever the tables *)
+Theorem go_roman_zero : forall T old, go_roman T old (dec_text 0) = None /\ std_roman old 0 = None.
+Proof. intros T old. rewrite dec_text_0. split; reflexivity. Qed.
